@@ -231,12 +231,25 @@ impl C14<'_> {
     }
     /// f64 dual gradient with respect to the untransformed position
     fn dual(&self, p: [f32; 3], values: &[f32]) -> Option<(f64, [f64; 3])> {
+        let unit = [[1.0, 0.0, 0.0], [0.0, 1.0, 0.0], [0.0, 0.0, 1.0]];
+        self.dual_seeded(p, values, &unit, &[])
+    }
+    /// The three derivative lanes of the result when the position components
+    /// carry the derivative seeds `sp` and variable k carries `sv[k]` (zero
+    /// if absent): what gradient evaluation must return for such inputs
+    fn dual_seeded(
+        &self,
+        p: [f32; 3],
+        values: &[f32],
+        sp: &[[f64; 3]; 3],
+        sv: &[[f64; 3]],
+    ) -> Option<(f64, [f64; 3])> {
         let pos = [p[0] as f64, p[1] as f64, p[2] as f64];
         let (x, y, z) = match &self.xf {
             None => (
-                Dual::<3> { v: pos[0], d: [1.0, 0.0, 0.0] },
-                Dual::<3> { v: pos[1], d: [0.0, 1.0, 0.0] },
-                Dual::<3> { v: pos[2], d: [0.0, 0.0, 1.0] },
+                Dual::<3> { v: pos[0], d: sp[0] },
+                Dual::<3> { v: pos[1], d: sp[1] },
+                Dual::<3> { v: pos[2], d: sp[2] },
             ),
             Some(m) => {
                 let mut rows = [Dual::<3>::c(0.0); 4];
@@ -245,7 +258,9 @@ impl C14<'_> {
                     let mut dv = [0.0; 3];
                     for c in 0..3 {
                         v += m[(r, c)] as f64 * pos[c];
-                        dv[c] = m[(r, c)] as f64;
+                        for l in 0..3 {
+                            dv[l] += m[(r, c)] as f64 * sp[c][l];
+                        }
                     }
                     *row = Dual { v, d: dv };
                 }
@@ -259,8 +274,14 @@ impl C14<'_> {
                 (div(rows[0], rows[3]), div(rows[1], rows[3]), div(rows[2], rows[3]))
             }
         };
-        let vars: Vec<Dual<3>> =
-            values.iter().map(|v| Dual::c(*v as f64)).collect();
+        let vars: Vec<Dual<3>> = values
+            .iter()
+            .enumerate()
+            .map(|(k, v)| Dual {
+                v: *v as f64,
+                d: sv.get(k).copied().unwrap_or([0.0; 3]),
+            })
+            .collect();
         let r = eval_dual(&self.vf.dag, x, y, z, &vars);
         if !r.supported || !(r.tie_margin > 1e-3) {
             return None;
@@ -692,18 +713,56 @@ fn c14_backend<F: Function + MathFunction + Clone>(
         ),
     }
 
-    // gradient evaluation: value lane and derivative lanes
-    let gx: Vec<Grad> = xs.iter().map(|v| Grad::new(*v, 1.0, 0.0, 0.0)).collect();
-    let gy: Vec<Grad> = ys.iter().map(|v| Grad::new(*v, 0.0, 1.0, 0.0)).collect();
-    let gz: Vec<Grad> = zs.iter().map(|v| Grad::new(*v, 0.0, 0.0, 1.0)).collect();
+    // gradient evaluation: value lane and derivative lanes.  The positions
+    // usually carry the unit-axis seeds (what the renderers pass); one visit in
+    // three they carry drawn seeds (a curve tangent, a parameter derivative),
+    // and in half of those the variables are gradient-valued too
+    let seed_mode = ch(&mut |c| c.choose("grad_seed_mode", 6));
+    let mut draw_seed = || -> [f64; 3] {
+        let mut s = [0.0; 3];
+        for l in s.iter_mut() {
+            *l = *[0.0f64, 1.0, -1.0, 0.5, 2.0, -0.25]
+                .get(ch(&mut |c| c.choose("grad_seed", 6)) as usize)
+                .unwrap();
+        }
+        s
+    };
+    let sp: [[f64; 3]; 3] = if seed_mode >= 4 {
+        [draw_seed(), draw_seed(), draw_seed()]
+    } else {
+        [[1.0, 0.0, 0.0], [0.0, 1.0, 0.0], [0.0, 0.0, 1.0]]
+    };
+    let svs: Vec<[f64; 3]> = if seed_mode == 5 {
+        (0..nvars).map(|_| draw_seed()).collect()
+    } else {
+        vec![]
+    };
+    if seed_mode >= 4 {
+        rep.count("op.gradient_with_drawn_seeds", 1);
+    }
+    let g_of = |v: f32, s: &[f64; 3]| Grad::new(v, s[0] as f32, s[1] as f32, s[2] as f32);
+    let gx: Vec<Grad> = xs.iter().map(|v| g_of(*v, &sp[0])).collect();
+    let gy: Vec<Grad> = ys.iter().map(|v| g_of(*v, &sp[1])).collect();
+    let gz: Vec<Grad> = zs.iter().map(|v| g_of(*v, &sp[2])).collect();
+    // gradient-valued variables, bound by identity like the plain ones
+    let mut svg = ShapeVars::<Grad>::new();
+    if seed_mode == 5 {
+        for k in 0..nvars {
+            svg.insert(c.vars[k].index().unwrap(), g_of(values[k], &svs[k]));
+        }
+    }
     let r = rt::catch(|| {
         let tape = shape.ez_grad_slice_tape();
         let ev = &mut evs.ge;
-        match xf {
-            Some(m) => ev
+        match (xf, seed_mode == 5) {
+            (Some(m), false) => ev
                 .eval_with_transform_and_vars(&tape, &gx, &gy, &gz, m, &sv)
                 .map(|v| v.to_vec()),
-            None => ev.eval_with_vars(&tape, &gx, &gy, &gz, &sv).map(|v| v.to_vec()),
+            (None, false) => ev.eval_with_vars(&tape, &gx, &gy, &gz, &sv).map(|v| v.to_vec()),
+            (Some(m), true) => ev
+                .eval_with_transform_and_vars(&tape, &gx, &gy, &gz, m, &svg)
+                .map(|v| v.to_vec()),
+            (None, true) => ev.eval_with_vars(&tape, &gx, &gy, &gz, &svg).map(|v| v.to_vec()),
         }
     });
     match r {
@@ -716,16 +775,36 @@ fn c14_backend<F: Function + MathFunction + Clone>(
         Ok(Ok(g)) => {
             for k in 0..npts.min(g.len()) {
                 check(rep, "grad_slice", g[k].v, refs[k], pts[k]);
-                if let Some((_, d)) = c.dual(pts[k], values) {
-                    let s = d.iter().map(|v| v.abs()).fold(0.0f64, f64::max).max(1e-2);
+                // the scale of the comparison comes from the unit-seed
+                // gradient, so that cancelling seeds do not shrink the band
+                let unit = c.dual(pts[k], values);
+                if let (Some((_, d)), Some((_, du))) =
+                    (c.dual_seeded(pts[k], values, &sp, &svs), unit)
+                {
+                    let smax = sp
+                        .iter()
+                        .chain(svs.iter())
+                        .flat_map(|s| s.iter())
+                        .fold(1.0f64, |a, b| a.max(b.abs()));
+                    let s = du
+                        .iter()
+                        .chain(d.iter())
+                        .map(|v| v.abs())
+                        .fold(0.0f64, f64::max)
+                        .max(1e-2)
+                        * smax;
+                    // with gradient-valued variables the scale also depends on
+                    // the derivatives with respect to the variables, which the
+                    // unit pass does not see: compare only well-scaled cases
                     let got = [g[k].dx as f64, g[k].dy as f64, g[k].dz as f64];
                     rep.count("oracle.gradients_checked", 1);
-                    if (0..3).any(|a| !((got[a] - d[a]).abs() <= 2e-3 * s + 1e-4)) {
+                    let tol = if seed_mode == 5 { 5e-3 * s + 1e-3 } else { 2e-3 * s + 1e-4 };
+                    if (0..3).any(|a| !((got[a] - d[a]).abs() <= tol)) {
                         rep.violate(
                             "C14",
                             "grad_slice_derivative",
                             format!(
-                                "at {:?}: derivative {got:?}, f64 dual of the bound expression {d:?}",
+                                "at {:?}: derivative {got:?}, f64 dual of the bound expression {d:?} (position seeds {sp:?}, variable seeds {svs:?})",
                                 pts[k]
                             ),
                         );
